@@ -4,7 +4,8 @@
    transaction (rejected: nothing delivered), the extended child store's event for a parent entity
    without extension data, listener filtering, delivered states; the pinned Db.Batch is refuted. *)
 From Coq Require Import List NArith Bool.
-From Storage Require Import Base.Bytes Store.Model Store.Events Store.EventProofs Store.EventAnyProofs.
+From Storage Require Import Base.Bytes Store.Model Store.Events Store.EventProofs Store.EventAnyProofs
+  Store.TxHooks Store.TxHooksProofs.
 Import ListNotations.
 Open Scope N_scope.
 
@@ -226,3 +227,44 @@ Example tree_cycle_nothing_delivered :
   | (rs, committed, _, evs) => committed = false /\ evs = []
   end.
 Proof. vm_compute. split; reflexivity. Qed.
+
+Open Scope nat_scope.
+(* ---- transaction hooks (Store/TxHooks.v): registrations before the transaction, in the body, in nested joins ---- *)
+(* ctx.AddCommitAction(0); ctx.AddPreCommitAction(0) before db.Update(ctx, ...); in the body: commit action 1, a
+   pre-commit action 1 that adds commit action 100 when it runs, then db.Update(ctx, {update C1; commit action 2;
+   db.Batch(ctx, {delete A1; pre-commit action 2})}), then commit action 3 *)
+Definition hooks_ctx0 : mctx := mkMctx [(0, PkOk)] [0].
+Definition hooks_prog (pk : pre_kind) (last : op) : list hitem :=
+  [ HAddCommit 1; HAddPre 1 (PkAddsCommit 100);
+    HNest false [ HOp (up_c C1 [9%N] B1); HAddCommit 2; HNest true [ HOp last; HAddPre 2 pk ] ];
+    HAddCommit 3 ].
+
+Example nested_program_commits_hooks_once :
+  let o := db_update casc_schema 16 st3 false [] hooks_ctx0 (hooks_prog PkOk (ODelete n_a A1)) in
+  ho_committed o = true /\ ho_results o = [None; None] /\
+  ho_commit_runs o = [0; 1; 2; 3; 100] /\ ho_pre_runs o = [0; 1; 2] /\ ho_tc o = 1 /\
+  ho_events o = to_events (run_tx_v casc_schema 16 st3 tx4) /\ length (ho_events o) = 8 /\
+  NoDup (registered_commits hooks_ctx0 (hooks_prog PkOk (ODelete n_a A1))).
+Proof.
+  vm_compute. repeat split; try reflexivity.
+  repeat constructor; cbn; intros H; repeat (destruct H as [H|H]; [discriminate H|]); exact H.
+Qed.
+
+Example nested_program_flattened :
+  flatten (hooks_prog PkOk (ODelete n_a A1)) =
+  [ HAddCommit 1; HAddPre 1 (PkAddsCommit 100); HOp (up_c C1 [9%N] B1); HAddCommit 2; HOp (ODelete n_a A1); HAddPre 2 PkOk;
+    HAddCommit 3 ].
+Proof. reflexivity. Qed.
+
+(* a failing pre-commit action registered inside the innermost nested call: rollback, nothing runs after it *)
+Example nested_failing_precommit_no_hooks :
+  let o := db_update casc_schema 16 st3 false [] hooks_ctx0 (hooks_prog PkFail (ODelete n_a A1)) in
+  ho_committed o = false /\ ho_results o = [None; None] /\ ho_commit_runs o = [] /\ ho_tc o = 0 /\
+  ho_events o = [] /\ ho_pre_runs o = [0; 1; 2].
+Proof. vm_compute. repeat split; reflexivity. Qed.
+
+(* a failing operation inside the innermost nested call (no such entity): rollback, no pre-commit action ran *)
+Example nested_failing_op_no_hooks :
+  let o := db_update casc_schema 16 st3 false [] hooks_ctx0 (hooks_prog PkOk (ODelete n_a [90%N])) in
+  ho_committed o = false /\ ho_results o = [None; Some ENotFound] /\ ho_commit_runs o = [] /\ ho_tc o = 0 /\ ho_pre_runs o = [].
+Proof. vm_compute. repeat split; reflexivity. Qed.
